@@ -91,6 +91,9 @@ PROGRAMS = {
     "sync-caller-pending-throw-blocking-callee": "const L = []; function inner(){ return order('a'); } function outer(){ try { throw 'X'; } finally { L.push(inner()); } } let r; try { r = outer(); } catch (e) { r = 'caught:' + e; } L.join() + ' => ' + r",
     "three-frames-middle-pending": "const L = []; async function c(){ return %s; } async function b(){ try { return 'bv'; } finally { L.push(await c()); } } async function a(){ const x = await b(); L.push('a:' + x); return x; } const r = await a(); L.join() + ' => ' + r" % A,
     "caller-block-scope-and-this": "class K { tag = 'T'; async inner(){ return %s; } async outer(){ let s = 'o'; { let s = 'blk'; const v = await this.inner(); s += v; return this.tag + s; } } } await new K().outer()" % A,
+    # several orders outstanding (markers from a native callback), awaited one by one inside loop / try-finally / callee
+    "markers-batch-loop-finally": "const L = []; async function run(){ const m = ['a', 'b', 'c'].map(order); let out = ''; for (const [i, p] of m.entries ? [[0, m[0]], [1, m[1]], [2, m[2]]] : []) { try { out += await p; } finally { L.push('f' + i); } } return out; } const r = await run(); r + '|' + L.join()",
+    "markers-batch-callee": "async function take(p){ const v = await p; return '<' + v + '>'; } const m = ['a', 'b'].map(order); const y = await take(m[1]); const x = await take(m[0]); x + y",
     "await-non-promise-between": "const a = %s; const z = await 5; const b = %s; a + z + b" % (A, B),
 }
 
@@ -121,8 +124,9 @@ def cases(tier):
     cs = []
     for name, src in PROGRAMS.items():
         depth = 6 if tier == "quick" else 9
-        cs.append({"id": "pos|" + name, "src": src, "depth": depth, "twin": True, "payloads": payloads(src)})
-        cs.append({"id": "pos-gc|" + name, "src": src, "depth": depth if tier != "quick" else 5, "twin": True, "gc": True, "payloads": payloads(src)})
+        extra = {} if ".map(order)" in src else {"payloads": payloads(src)}   # payloads handed to order() by a native are not countable from the text
+        cs.append(dict({"id": "pos|" + name, "src": src, "depth": depth, "twin": True}, **extra))
+        cs.append(dict({"id": "pos-gc|" + name, "src": src, "depth": depth if tier != "quick" else 5, "twin": True, "gc": True}, **extra))
     return cs
 
 
